@@ -12,7 +12,9 @@ sys.path.insert(0, os.path.join(os.path.dirname(os.path.abspath(__file__)), ".."
 import vplib as V
 
 SPEC = os.path.join(V.SPEC, "Layout")
-PRELUDE = '.const cv = 5\n.const sv = "z"\n.macro mm(a) { ldx #a }\ntbl: nop\n'
+# the segment is defined explicitly and first: code in front of the first `.define segment` of a program that defines
+# segments (the define-seg form does) has no segment to go to and is rejected
+PRELUDE = '.define segment { name = "default" start = $2000 }\n.const cv = 5\n.const sv = "z"\n.macro mm(a) { ldx #a }\ntbl: nop\n'
 INC = ".const iv = 9\nivl: rts\n"
 
 
